@@ -28,6 +28,7 @@ INVARIANTS = ["TypeOK", "RingLaws", "PowLaws", "MixLaws", "EvalAgrees"]
 PRIMES = (46337, 46327)
 
 ALL_LEAVES = {"a", "b", "c", "d", "n2", "n3", "n10", "nm1", "nm2", "h", "mt", "q34", "pi"}
+OPERATORS = {"ddt", "int", "sumk", "prodk", "fact", "isum", "iprod"}
 ALL_OPS = {"add2", "add3", "mul2", "mul3", "neg", "div", "sq", "cube", "inv", "isq", "sqrt", "cbrt", "p32", "pm32",
            "pm12", "pow", "exp", "sin", "log", "f2", "g1"}
 
@@ -38,6 +39,9 @@ GEN = {
         ("all4", dict(MaxLen=4, LeafNames={"a", "b", "c", "n2", "nm1", "h", "mt", "pi"}, OpNames=ALL_OPS - {"cube", "isq", "p32"})),
         ("deep6", dict(MaxLen=6, LeafNames={"a", "b", "nm2"}, OpNames={"add2", "mul2", "div", "pow"})),
         ("neg5", dict(MaxLen=5, LeafNames={"a", "c", "nm1", "mt"}, OpNames={"add2", "mul2", "neg", "div", "sq", "pm32", "pow", "exp"})),
+        # operator nodes (Derivative, Integral, Sum, Product, IndexedSum/Product, factorial) as base of a power, as
+        # factorial argument, as left / right factor, under a sign, in a denominator
+        ("oper4", dict(MaxLen=4, LeafNames={"xt", "a", "n2"}, OpNames=OPERATORS | {"mul2", "add2", "neg", "sq", "inv", "cube"})),
     ],
     "thorough": [
         ("all5", dict(MaxLen=5, LeafNames={"a", "b", "c", "n2", "nm1", "h", "mt"},
@@ -46,6 +50,9 @@ GEN = {
         ("deep8", dict(MaxLen=8, LeafNames={"a", "nm2"}, OpNames={"add2", "mul2", "div", "pow"})),
         ("deep7", dict(MaxLen=7, LeafNames={"a", "b", "mt"}, OpNames={"add2", "mul2", "div", "pow", "neg"})),
         ("fn6", dict(MaxLen=6, LeafNames={"a", "c", "nm1"}, OpNames={"add2", "mul2", "div", "sqrt", "pm12", "exp", "log", "f2"})),
+        ("oper5", dict(MaxLen=5, LeafNames={"xt", "a", "nm1"}, OpNames=OPERATORS | {"mul2", "add2", "sq", "inv", "sqrt"})),
+        ("oper4", dict(MaxLen=4, LeafNames={"xt", "a", "b", "n2", "mt"},
+                       OpNames=OPERATORS | {"mul2", "mul3", "add2", "neg", "div", "sq", "inv", "pm32", "pow", "exp", "sin"})),
     ],
 }
 
@@ -56,7 +63,7 @@ def setup(mode: str):
     """Import the library (from the working tree) and create the leaf objects once (inherited by fork)."""
     global _ENV  # pylint: disable=global-statement
     import sympy as sp
-    from symplyphysics import Symbol, Function
+    from symplyphysics import Symbol, Function, IndexedSum, IndexedProduct, global_index
     from symplyphysics.docs.printer_code import code_str
     from symplyphysics.docs.printer_latex import latex_str
     syms = {
@@ -65,7 +72,12 @@ def setup(mode: str):
         3: Symbol("gamma", display_latex="\\gamma", positive=True),
         4: Symbol("Delta(p)", display_latex="\\Delta p", real=True),
     }
-    fns = {16: sp.sin, 17: sp.log, 18: Function("F_n", display_latex="F_\\text{n}"), 19: Function("phi", display_latex="\\varphi")}
+    t, k, n = Symbol("t"), Symbol("k"), Symbol("n", display_latex="n")
+    syms[5] = Function("x", display_latex="x")(t)          # leaf "xt": the applied function x(t)
+    fns = {16: sp.sin, 17: sp.log, 18: Function("F_n", display_latex="F_\\text{n}"), 19: Function("phi", display_latex="\\varphi"),
+           20: lambda e: sp.Derivative(e, t), 21: lambda e: sp.Integral(e, t),
+           22: lambda e: sp.Sum(e, (k, 1, n)), 23: lambda e: sp.Product(e, (k, 1, n)), 24: sp.factorial,
+           25: lambda e: IndexedSum(e, global_index), 26: lambda e: IndexedProduct(e, global_index)}
     _ENV = dict(mode=mode, sp=sp, syms=syms, fns=fns, csts={1: sp.pi},
                 render=code_str if mode == "code" else latex_str,
                 parse=pp.parse_code if mode == "code" else pp.parse_latex)
